@@ -99,6 +99,7 @@ type Net struct {
 	OnCreate  func(d *Delivery) bool // called for every created delivery; return false to drop it
 	AfterStep func(s Step)           // invariant hook
 	EmitErrs  []string               // routing problems noticed while resolving recipients
+	PreStart  int                    // deliveries made to a party before its Start
 }
 
 func (n *Net) nodeByID(id *tss.PartyID) int {
@@ -225,6 +226,9 @@ func (n *Net) doDeliver(d *Delivery, kind StepKind) Step {
 	nd := n.Nodes[d.To]
 	var ok bool
 	var err *tss.Error
+	if !nd.Started {
+		n.PreStart++
+	}
 	if !nd.Dead {
 		if n.UseParsed != nil && d.Parsed != nil && n.UseParsed(d) {
 			// re-parse from bytes so that the receiving party never shares the sender's message object
